@@ -225,3 +225,29 @@ class ScheduleResponse(io.IOBase):
         out = self._take(len(b))
         b[: len(out)] = out
         return len(out)
+
+
+class ShortBuffered(io.BufferedIOBase):
+    """A non-seekable BufferedIOBase over an interactive raw stream: read(n) issues at most one
+    raw read, so it may return fewer than n bytes long before the end (the io contract allows
+    exactly that)."""
+
+    def __init__(self, data: bytes, cap: int) -> None:
+        self.data, self.pos, self.cap = data, 0, cap
+
+    def readable(self) -> bool:
+        return True
+
+    def seekable(self) -> bool:
+        return False
+
+    def read(self, size=-1):
+        if size is None or size < 0:
+            out, self.pos = self.data[self.pos:], len(self.data)
+            return out
+        n = min(size, self.cap)
+        out = self.data[self.pos:self.pos + n]
+        self.pos += len(out)
+        return out
+
+    read1 = read
